@@ -617,6 +617,12 @@ class Analyzer:
                 self.sink(st, argv[0], e, "ast.copy_location() writes the position attributes of its first argument")
             return argv[0] if argv else E
         if n == "ast.fix_missing_locations":
+            # fills in ABSENT position attributes only: no change to parsed nodes (they all carry positions), but the
+            # templates built by core.compile_template are position-less on purpose, so it stamps them
+            if argv:
+                bare = frozenset(t for t in self.reach(st, argv[0]) if t[0] in ("SH", "SHL") and t[1].endswith("compile_template"))
+                if bare:
+                    self.sink(st, bare, e, "ast.fix_missing_locations() stamps positions on the position-less nodes of a compiled template")
             return argv[0] if argv else E
         if n == "ast.increment_lineno":
             if argv:
